@@ -44,6 +44,9 @@ Record ccase := {
   c_cb_copies : list Z;       (* observed: sizes of the Copy calls of callbacks.OnWithStreamHandle *)
   c_cp_drains : nat;          (* observed: streams concatenated by checkPointer.convertCheckPoint *)
   c_input_closes : nat;       (* observed: ignored inputs of resumed calls closed by runner.run *)
+  c_unattr_closes : nat;      (* observed: closes issued by the run loop that the harness could not attribute to one of the
+                                 five functions above (they carry other names than the ones it knows): when there are any,
+                                 the closes are compared as a total instead of origin by origin *)
 }.
 
 Definition mkc (w c : list key) (bs : list bdecl) : call := {| c_write_to := w; c_controls := c; c_branches := bs |}.
@@ -55,12 +58,12 @@ Definition mkSubs (dag : bool) (calls : list (key * call)) (before after : list 
 Definition mkRS (dag eager : bool) (calls : list (key * call)) (before after : list key)
                (start : batch) (tms : list seg) (subs : list csub)
                (cp : list Z) (rc uc cc sc : nat) (mg : list nat) (fired : list key)
-               (handlers : nat) (sides : list (nat * nat)) (cbc : list Z) (drains closes : nat) : ccase :=
+               (handlers : nat) (sides : list (nat * nat)) (cbc : list Z) (drains closes unattr : nat) : ccase :=
   {| c_graph := {| g_dag := dag; g_eager := eager; g_calls := calls |};
      c_cfg := {| i_before := before; i_after := after |}; c_start := start; c_tms := tms; c_subs := subs;
      c_copies := cp; c_resolve_closes := rc; c_update_closes := uc; c_chan_closes := cc; c_skip_closes := sc;
      c_merges := mg; c_fired := fired; c_handlers := handlers; c_cb_sides := sides; c_cb_copies := cbc;
-     c_cp_drains := drains; c_input_closes := closes |}.
+     c_cp_drains := drains; c_input_closes := closes; c_unattr_closes := unattr |}.
 
 Fixpoint zlist_eqb (a b : list Z) : bool :=
   match a, b with
@@ -107,8 +110,9 @@ Definition all_runs (c : ccase) : list (graph * list batch) :=
 Definition bad_tasks (c : ccase) : bool :=
   match (do tss <- res_mapM (fun gs => tasks_of (fst gs) (snd gs)) (all_runs c); predict (List.concat tss)) with
   | Ok p => negb (zlist_eqb (p_copies p) (c_copies c)
-                  && Nat.eqb (p_resolve_closes p) (c_resolve_closes c)
-                  && Nat.eqb (p_update_closes p) (c_update_closes c)
+                  && (negb (Nat.eqb (c_unattr_closes c) 0)
+                      || Nat.eqb (p_resolve_closes p) (c_resolve_closes c)
+                         && Nat.eqb (p_update_closes p) (c_update_closes c))
                   && p_balanced p)
   | _ => true
   end.
@@ -159,14 +163,19 @@ Definition predict_all (c : ccase) : res (rpred * list rpred) :=
 Definition bad_run_of (c : ccase) (top : rpred) (subs : list rpred) : bool :=
       let all := top :: subs in
       negb (zlist_eqb (sort_by Z.ltb (flat_map q_copies all)) (c_copies c)
-            && Nat.eqb (sumn q_resolve all) (c_resolve_closes c)
-            && Nat.eqb (sumn q_update all) (c_update_closes c)
-            && Nat.eqb (sumn q_chan all) (c_chan_closes c)
-            && Nat.eqb (sumn q_skip all) (c_skip_closes c)
+            && (if Nat.eqb (c_unattr_closes c) 0 then
+                  Nat.eqb (sumn q_resolve all) (c_resolve_closes c)
+                  && Nat.eqb (sumn q_update all) (c_update_closes c)
+                  && Nat.eqb (sumn q_chan all) (c_chan_closes c)
+                  && Nat.eqb (sumn q_skip all) (c_skip_closes c)
+                  && Nat.eqb (sumn q_closes all) (c_input_closes c)
+                else
+                  Nat.eqb (sumn q_resolve all + sumn q_update all + sumn q_chan all + sumn q_skip all + sumn q_closes all)
+                          (c_resolve_closes c + c_update_closes c + c_chan_closes c + c_skip_closes c + c_input_closes c
+                           + c_unattr_closes c))
             && natlist_eqb (sort_by Nat.ltb (flat_map q_merges all)) (c_merges c)
             && nlist_eqb (sort_by N.ltb (q_fired top)) (c_fired c)
             && Nat.eqb (sumn q_drains all) (c_cp_drains c)
-            && Nat.eqb (sumn q_closes all) (c_input_closes c)
             && forallb q_ok all).
 
 (* ---- (c) callback copies: every call of a runnable (top level or nested) has a streaming callback site
